@@ -17,6 +17,7 @@ Helper lemmas: Proofs/KeysBase.lean, Proofs/Keys.lean (part A), Proofs/KeysB.lea
 import SpsdkVerif.Proofs.Keys
 import SpsdkVerif.Proofs.KeysB
 import SpsdkVerif.Proofs.KeysGlue
+import SpsdkVerif.Proofs.KeysCert
 
 namespace SpsdkVerif.C08
 open SpsdkVerif SpsdkVerif.Keys SpsdkVerif.Misc SpsdkVerif.Generated
@@ -333,10 +334,12 @@ theorem cert_nxp_roundtrip {γ : Type} (load : Bytes → LoadRes γ) (der : Byte
     (hload : load der = .ok c) (hextra : ∀ k, 0 < k → load (der ++ List.replicate k 0) = .extraData) :
     certLoadDer load (certExportNxp der) = .ok c ∧ certLoadDer load der = .ok c := by
   constructor
-  · unfold certLoadDer certExportNxp
+  · rw [certLoadDer_eq]
+    unfold certExportNxp
     exact certLoadDerF_padded load der c hload hextra _ _ (by rw [List.length_append, List.length_replicate]; omega)
   · have := certLoadDerF_padded load der c hload hextra 0 der.length (by omega)
-    simpa [certLoadDer] using this
+    rw [certLoadDer_eq]
+    simpa using this
 
 /-- … through `Certificate.parse` itself for every DER certificate of 128 bytes or more (`30 8x …`): padded or not it is
     never sniffed as PEM. -/
@@ -364,9 +367,95 @@ theorem cert_raw_size (der : Bytes) :
 /-- Only zero bytes are ever stripped: trailing data that is not zero is refused. -/
 theorem cert_strip_only_zeros {γ : Type} (load : Bytes → LoadRes γ) (data : Bytes)
     (h : load data = .extraData) (hz : data.getLast? ≠ some 0) : certLoadDer load data = .error .spsdk := by
-  unfold certLoadDer certLoadDerF
+  rw [certLoadDer_eq]
+  unfold certLoadDerF
   rw [h]
   simp [hz]
+
+/-! #### Phase 3: the padding is removed BY THE DECLARED LENGTH of the DER element -/
+
+/-- What the generator found in `Certificate.parse` (certificate.py): a retry loop that removes ONE trailing byte per failed load,
+    only the byte 0x00, only on the loader's `ExtraData` error.  (An unconditional `data.rstrip(b"\\0")` is generated as mode 1 and
+    falsifies this and — through `certLoadDer` — every theorem of this section.) -/
+theorem cert_pad_removal_agrees :
+    KeysTables.certPadMode = 0 ∧ KeysTables.certPadBytes = [0] ∧ KeysTables.certPadNeedsExtraData = true := by decide
+
+/-- The declared total length is a function of the header alone: appended bytes never change it … -/
+theorem der_total_len_header_only (d t : Bytes) (n : Nat) (h : derTotalLen d = some n) : derTotalLen (d ++ t) = some n :=
+  derTotalLen_append d t n h
+
+/-- … and every canonical DER SEQUENCE (content shorter than 4 GiB) declares exactly its own length. -/
+theorem der_total_len_canonical (content : Bytes) (h : content.length < 2 ^ 32) :
+    derTotalLen (encTLV 0x30 content) = some (encTLV 0x30 content).length := derTotalLen_encTLV content h
+
+/-- FULL characterisation of `load_der_certificate` over the length-driven loader, for EVERY element `el` that declares its own length
+    and EVERY tail: the tail is dropped iff it consists of zero bytes only, and the answer is then the loader's answer on exactly `el`.
+    Nothing of `el` itself is ever removed — whatever bytes it ends with (a signature or extension ending in 0x00 …). -/
+theorem cert_strip_by_declared_length {γ : Type} (syn : Bytes → Bool) (body : Bytes → Option γ) (el tail : Bytes)
+    (hn : derTotalLen el = some el.length) :
+    certLoadDer (derLoad syn body) (el ++ tail) = if tail.all (· == 0) then loadExact syn body el else .error .spsdk := by
+  rw [certLoadDer_eq]
+  exact certLoadDerF_derLoad syn body el hn tail _ (by rw [List.length_append]; omega)
+
+/-- `parse (export_nxp c) = c` with NO assumption on the last bytes of the DER form (the phase-2 theorem `cert_nxp_roundtrip` assumes
+    the loader's answers; here they follow from the declared length): the padded form, the bare DER form and the DER form followed by
+    any number of zero bytes all give the certificate. -/
+theorem cert_nxp_roundtrip_any_ending {γ : Type} (syn : Bytes → Bool) (body : Bytes → Option γ) (der : Bytes) (c : γ)
+    (hn : derTotalLen der = some der.length) (hsyn : syn der = true) (hbody : body der = some c) :
+    certLoadDer (derLoad syn body) (certExportNxp der) = .ok c ∧ certLoadDer (derLoad syn body) der = .ok c ∧
+    ∀ k, certLoadDer (derLoad syn body) (der ++ List.replicate k 0) = .ok c := by
+  have hall : ∀ k, (List.replicate k (0 : UInt8)).all (· == 0) = true := by
+    intro k; simp
+  have hex : loadExact syn body der = .ok c := by simp [loadExact, hsyn, hbody]
+  have hk : ∀ k, certLoadDer (derLoad syn body) (der ++ List.replicate k 0) = .ok c := by
+    intro k; rw [cert_strip_by_declared_length syn body der _ hn, hall k, if_pos rfl, hex]
+  refine ⟨hk _, ?_, hk⟩
+  have := hk 0
+  simpa using this
+
+/-- … and through `Certificate.parse` itself (sniffing included) for every DER certificate of 128 bytes or more. -/
+theorem cert_parse_nxp_roundtrip_any_ending {γ : Type} (loadPem : Bytes → Option γ) (syn : Bytes → Bool) (body : Bytes → Option γ)
+    (l : UInt8) (rest : Bytes) (c : γ) (hl : 0x80 ≤ l.toNat ∧ l.toNat ≤ 0xBF)
+    (hn : derTotalLen (0x30 :: l :: rest) = some (0x30 :: l :: rest).length)
+    (hsyn : syn (0x30 :: l :: rest) = true) (hbody : body (0x30 :: l :: rest) = some c) :
+    certParse loadPem (derLoad syn body) (certExportNxp (0x30 :: l :: rest)) = .ok c := by
+  have h1 : fileEncoding (certExportNxp (0x30 :: l :: rest)) = .der := by
+    unfold certExportNxp
+    rw [List.cons_append, List.cons_append]
+    exact B.sniff_der_long l _ hl
+  unfold certParse
+  rw [h1]
+  simp only [reduceCtorEq, if_false]
+  exact (cert_nxp_roundtrip_any_ending syn body _ c hn hsyn hbody).1
+
+/-- Damaged input is refused, never "repaired": a non-zero byte anywhere behind the element, or an element cut short, is an SPSDK error. -/
+theorem cert_trailer_refused {γ : Type} (syn : Bytes → Bool) (body : Bytes → Option γ) (el tail : Bytes)
+    (hn : derTotalLen el = some el.length) (hnz : ∃ b ∈ tail, b ≠ 0) :
+    certLoadDer (derLoad syn body) (el ++ tail) = .error .spsdk := by
+  rw [cert_strip_by_declared_length syn body el tail hn]
+  obtain ⟨b, hb, hb0⟩ := hnz
+  have : tail.all (· == 0) = false := by
+    rw [Bool.eq_false_iff]; intro h
+    rw [List.all_eq_true] at h
+    exact hb0 (by simpa using h b hb)
+  rw [this]; rfl
+
+/-- The variant "strip every trailing zero, then load" (generated mode 1) is NOT equivalent: it loses every certificate whose DER form
+    ends in 0x00 — witness: a 4-byte element ending in zero, padded to 4 (unchanged) resp. followed by zeros. -/
+theorem cert_rstrip_variant_refuted :
+    let el : Bytes := [0x30, 0x02, 0x05, 0x00]
+    derTotalLen el = some el.length ∧
+    certLoadDer (derLoad (fun _ => true) some) (el ++ [0, 0]) = .ok el ∧
+    certLoadDerStrip [0] (derLoad (fun _ => true) some) (el ++ [0, 0]) = .error .spsdk ∧
+    certLoadDerStrip [0] (derLoad (fun _ => true) some) (certExportNxp el) = .error .spsdk := by decide
+
+/-- non-vacuity: elements that declare their own length and END IN ZERO bytes (short and long length form) -/
+example : derTotalLen [0x30, 0x03, 0x01, 0x00, 0x00] = some 5 := by decide
+example : derTotalLen (encTLV 0x30 (List.replicate 200 0)) = some 203 ∧ (encTLV 0x30 (List.replicate 200 0)).getLast? = some 0 := by
+  decide +kernel
+example : certLoadDer (derLoad (fun _ => true) some) (certExportNxp [0x30, 0x03, 0x01, 0x00, 0x00]) = .ok [0x30, 0x03, 0x01, 0x00, 0x00] := by
+  decide
+example : certLoadDer (derLoad (fun _ => true) some) ([0x30, 0x03, 0x01, 0x00, 0x00] ++ [0, 0, 7]) = .error .spsdk := by decide
 
 /-- `validate_certificate_chain`: a chain of `n ≥ 2` certificates yields `n - 1` answers, answer `i` being
     `chain[i].validate(chain[i+1])` (subject first, its issuer next); shorter chains are refused. -/
